@@ -3,9 +3,11 @@ package checks
 import (
 	"bytes"
 	"context"
+	"encoding/base64"
 	"encoding/hex"
 	"fmt"
 	"io"
+	"net/url"
 	"os"
 	"path/filepath"
 	"sort"
@@ -18,6 +20,7 @@ import (
 	"github.com/ipld/go-ipld-prime/storage/fsstore"
 	"github.com/ipld/go-ipld-prime/storage/memstore"
 	"github.com/ipld/go-ipld-prime/storage/sharding"
+	mbase "github.com/multiformats/go-multibase"
 	mh "github.com/multiformats/go-multihash"
 
 	"verif/internal/core"
@@ -72,6 +75,41 @@ func genKey(r *core.Rand) string {
 	default:
 		return string(core.GenStrBytes(r, core.GenCfg{}))
 	}
+}
+
+// relatedKey: another spelling of k - the text forms of a binary CID (and the binary form of a textual one), the
+// usual text encodings of the bytes, case changes, padding - always a different string.
+func relatedKey(r *core.Rand, k string) string {
+	var cands []string
+	if c, err := cid.Cast([]byte(k)); err == nil {
+		cands = append(cands, c.String())
+		if s, err := c.StringOfBase(mbase.Base16); err == nil {
+			cands = append(cands, s)
+		}
+		if s, err := c.StringOfBase(mbase.Base58BTC); err == nil {
+			cands = append(cands, s)
+		}
+		if s, err := c.StringOfBase(mbase.Base32Upper); err == nil {
+			cands = append(cands, s)
+		}
+		if c.Version() == 0 {
+			cands = append(cands, cid.NewCidV1(cid.DagProtobuf, c.Hash()).KeyString())
+		}
+	}
+	if c, err := cid.Decode(k); err == nil {
+		cands = append(cands, c.KeyString())
+	}
+	cands = append(cands, hex.EncodeToString([]byte(k)), b32NoPad(k), strings.ToLower(b32NoPad(k)), base64.StdEncoding.EncodeToString([]byte(k)),
+		strings.ToUpper(k), strings.ToLower(k), k+"=", k+"\x00", " "+k, k+" ", url.QueryEscape(k), url.PathEscape(k))
+	if b, err := hex.DecodeString(k); err == nil && len(b) > 0 {
+		cands = append(cands, string(b))
+	}
+	for tries := 0; tries < 8; tries++ {
+		if c := cands[r.Intn(len(cands))]; c != k && c != "" {
+			return c
+		}
+	}
+	return k + "\x01"
 }
 
 // snapshot of a directory tree: relative path → "d" or file content
@@ -191,6 +229,11 @@ func c17History(c *core.Ctx, r *core.Rand, idx int) error {
 		var key string
 		if len(keys) > 0 && r.Chance(1, 2) {
 			key = keys[r.Intn(len(keys))]
+		} else if len(keys) > 0 && r.Chance(1, 4) {
+			// a DIFFERENT key that is some other spelling of one already stored: a store that decodes or normalises
+			// keys would answer one for the other
+			key = relatedKey(r, keys[r.Intn(len(keys))])
+			c.Dist("related-key")
 		} else {
 			key = genKey(r)
 		}
